@@ -80,6 +80,10 @@ def run_case(case, res):
     for W in al.small_weight_vectors(n, 3):
         configs.append((gen, W, "frac"))
     configs.append((gen, None, "int"))
+    # mixed exact types: Fraction knots and parameters with int control points and int weights (still exact data)
+    intw = [1 + (i * 2) % 3 for i in range(n)]
+    configs.append((gen, intw, "mixed"))
+    configs.append((gen2, intw, "mixed"))
     for rep in ("float", "npfloat"):
         configs.append((gen, None, rep))
         configs.append((gen2, gw, rep))
@@ -88,13 +92,13 @@ def run_case(case, res):
     for P, W, rep in configs:
         res.state((U, P, W, rep))
         try:
-            c = lib.mk_curve(U, P, W, rep)
+            c = mk(U, P, W, rep)
         except Exception as e:  # noqa: BLE001
             res.violation("construct", f"Curve({U}, {P}, {W}) [{rep}] raised {type(e).__name__}: {e}", op="construct",
                           rep=rep, exc=type(e).__name__)
             continue
         # exactness is promised for Fraction knots; int knots go through true division and are compared as floats
-        exact = rep == "frac"
+        exact = rep in ("frac", "mixed")
         if rep in ("float", "npfloat"):
             # floats 1e-10 left and right of every interior knot: the value must be the one of the span the parameter
             # really lies in (matters where the curve jumps)
@@ -112,11 +116,11 @@ def run_case(case, res):
         # scalar calls
         for u, ex in zip(prm, expect):
             res.transition()
-            out = lib.outcome(c, lib.conv(u, rep))
+            out = lib.outcome(c, lib.conv(u, prep(rep)))
             _cmp(res, out, ex, exact, Uref, P, W, rep, u, p, "scalar")
         # one sequence call
         res.transition()
-        out = lib.outcome(c, [lib.conv(u, rep) for u in prm])
+        out = lib.outcome(c, [lib.conv(u, prep(rep)) for u in prm])
         if out[0] != "ok":
             res.violation("exception", f"curve(list) raised {out[1]}: {out[2]} U={U} W={W} rep={rep}", call="sequence",
                           rep=rep, exc=out[1], rational=W is not None)
@@ -131,6 +135,18 @@ def run_case(case, res):
             else:
                 for u, ex, v in zip(prm, expect, vals):
                     _cmp(res, ("ok", v), ex, exact, U, P, W, rep, u, p, "sequence")
+        # the same nodes in decreasing and in zig-zag order (list / tuple): value k belongs to node k
+        m = len(prm)
+        zig = [k // 2 if k % 2 == 0 else m - 1 - k // 2 for k in range(m)]
+        for perm, box in ((list(range(m))[::-1], list), (zig, tuple)):
+            res.transition()
+            out = lib.outcome(c, box(lib.conv(prm[k], prep(rep)) for k in perm))
+            if out[0] != "ok" or len(out[1]) != m:
+                res.violation("shape", f"curve(unsorted sequence) gave {out[:2] if out[0] != 'ok' else len(out[1])}; U={U}", call="unsorted",
+                              rep=rep)
+            else:
+                for k, v in zip(perm, out[1]):
+                    _cmp(res, ("ok", v), expect[k], exact, U, P, W, rep, prm[k], p, "unsorted")
         # numpy array of nodes (float representations): same values, same order
         if rep == "npfloat":
             res.transition()
@@ -143,20 +159,33 @@ def run_case(case, res):
                     _cmp(res, ("ok", v), ex, exact, U, P, W, rep, u, p, "nparray")
         # outside
         for u in outside:
-            for arg, call in ((lib.conv(u, rep), "scalar"), ([lib.conv(prm[0], rep), lib.conv(u, rep)], "sequence")):
+            for arg, call in ((lib.conv(u, prep(rep)), "scalar"), ([lib.conv(prm[0], prep(rep)), lib.conv(u, prep(rep))], "sequence")):
                 res.transition()
                 out = lib.outcome(c, arg)
                 if out[0] == "ok" or out[1] != "ValueError":
                     res.violation("outside", f"curve({arg}) outside [{U[0]},{U[-1]}] gave {out[:2]} instead of ValueError",
                                   call=call, rep=rep, got=out[1] if out[0] != "ok" else "value")
                 res.outcome("outside_" + (out[1] if out[0] == "raise" else "value"))
-        if lib.snap_curve(c) != lib.snap_curve(lib.mk_curve(U, P, W, rep)):
+        if lib.snap_curve(c) != lib.snap_curve(mk(U, P, W, rep)):
             res.violation("mutated", f"evaluation changed the curve U={U}", rep=rep)
     for u in prm0:
         tab = rb.coxdeboor_all(U, p, u)
         if u == U[-1] or rb.mult(U, u) >= 2 or sum(1 for x in tab if x != 0) >= 2:
             res.nontriv((U, u))
     res.observe(len(configs))
+
+
+def prep(rep):
+    return "frac" if rep == "mixed" else rep
+
+
+def mk(U, P, W, rep):
+    if rep != "mixed":
+        return lib.mk_curve(U, P, W, rep)
+    c = lib.mk_curve(U, None, None, "frac")
+    c.ctrlpoints = lib.points_arg(P, "int")  # python ints (an object array of ints for points in the plane)
+    c.weights = [int(w) for w in W]
+    return c
 
 
 def _cmp(res, out, ex, exact, U, P, W, rep, u, p, call):
